@@ -362,10 +362,17 @@ def params(sh):
               ('progress|compute_features_3d %r' % (val,), 'reject', lambda val=val: compute_features_3d(s3, FS, FR, n_jobs=1, progress=val)),
               ('progress|compute_features_3d(0,1) %r' % (val,), 'reject',
                lambda val=val: compute_features_3d(s3, FS, FR, n_jobs=1, progress=val, axis=(0, 1))),
-              ('progress|BycycleGroup.fit %r' % (val,), 'reject', lambda val=val: BycycleGroup().fit(s2, FS, FR, n_jobs=1, progress=val))]
+              ('progress|BycycleGroup.fit %r' % (val,), 'reject', lambda val=val: BycycleGroup().fit(s2, FS, FR, n_jobs=1, progress=val)),
+              # ... also where no bar would be shown anyway (one flattened analysis): an unknown value is still not analysed
+              ('progress|compute_features_2d(axis=None) %r' % (val,), 'reject',
+               lambda val=val: compute_features_2d(s2, FS, FR, n_jobs=1, progress=val, axis=None)),
+              ('progress|BycycleGroup.fit(axis=None) %r' % (val,), 'reject',
+               lambda val=val: BycycleGroup().fit(s2, FS, FR, n_jobs=1, progress=val, axis=None))]
     for val in (None, 'tqdm', 'tqdm.notebook'):
         P += [('progress-valid|compute_features_2d %r' % (val,), 'accept',
-               lambda val=val: compute_features_2d(s2, FS, FR, n_jobs=1, progress=val))]
+               lambda val=val: compute_features_2d(s2, FS, FR, n_jobs=1, progress=val)),
+              ('progress-valid|compute_features_2d(axis=None) %r' % (val,), 'accept',
+               lambda val=val: compute_features_2d(s2, FS, FR, n_jobs=1, progress=val, axis=None))]
     for val in (2, -1, 'x', (1, 0)):
         P += [('axis|BycycleGroup.fit(2d) %r' % (val,), 'reject', lambda val=val: BycycleGroup().fit(s2, FS, FR, axis=val, n_jobs=1)),
               ('axis|BycycleGroup.fit(3d) %r' % (val,), 'reject', lambda val=val: BycycleGroup().fit(s3, FS, FR, axis=val, n_jobs=1))]
